@@ -480,8 +480,21 @@ fn random(n: usize, max_sha: usize) {
         let len = rng.below(40);
         let b = if rng.chance(1, 3) { vec![[0xfb, 0xff, 0xfe, 0x3e, 0x3f][rng.below(5)]; len] } else { rng.bytes(len) };
         let mut t = b64_encode(&b).unwrap_or_default();
-        match rng.below(6) {
+        match rng.below(7) {
             0 | 1 => {}
+            6 => {
+                // a multi-byte character in place of as many symbols (length and grouping stay well formed): its bytes are
+                // >= 0x80, outside the alphabet whatever a table lookup masks them to (C3 B0 & 0x7f = "C0", C2 AB -> "B+")
+                const MB: &[&str] = &["\u{f0}", "\u{c2}", "\u{ab}", "\u{af}", "\u{b9}", "\u{e9}", "\u{142}", "\u{2028}", "\u{65e5}", "\u{1f600}", "\u{7ff}", "\u{ffff}"];
+                let c = rng.pick(MB).as_bytes();
+                if t.len() >= c.len() {
+                    let k = rng.below(t.len() - c.len() + 1);
+                    t.splice(k..k + c.len(), c.iter().cloned());
+                } else {
+                    t = c.to_vec();
+                    while t.len() % 4 != 0 { t.push(b'='); }
+                }
+            }
             2 => { if !t.is_empty() { let k = rng.below(t.len()); t[k] = *rng.pick(&b"=-_ \n.AQ/+"[..]); } }
             3 => { let k = rng.below(t.len() + 1); t.truncate(k); }
             4 => { let k = rng.below(t.len() + 1); t.insert(k, *rng.pick(&b"=A/+"[..])); }
